@@ -80,7 +80,7 @@ def reference_languages(sl: StrLang):
     return PREFIX, REF, CURIE
 
 
-def compare(cx: Cx, ob: Ob, fname: str, which: str, required: bool = True) -> None:
+def compare(cx: Cx, ob: Ob, fname: str, which: str, required: bool = True, advisory_unless: str | None = None) -> None:
     mod, sl = setup(cx, ob)
     if fname not in mod.functions:
         if required:
@@ -112,6 +112,18 @@ def compare(cx: Cx, ob: Ob, fname: str, which: str, required: bool = True) -> No
     ref = {"PREFIX": PREFIX, "REF": REF, "CURIE": CURIE}[which]
     same, only_code, only_spec = equivalent(got, ref)
     ob.site(f"{fn.where} {fn.qualname}", f"L_true has {got.n} DFA states over {sl.alpha.n} alphabet classes; reference {which} has {ref.n}; patterns used: {sorted(set(sl.used))}")
+    if not same and advisory_unless is not None:
+        # an internal helper is judged by what its caller makes of it: a helper that relies on a precondition the
+        # caller establishes is no defect as long as the public validator decides the documented language
+        try:
+            pub = sl.lang_true(advisory_unless)
+            _, _, CURIE_ = reference_languages(sl)
+            if equivalent(pub, CURIE_)[0]:
+                ob.site(f"{fn.where} {fn.qualname}", f"{fname} alone differs from {which} (it relies on a precondition), but {advisory_unless} decides the documented language")
+                return
+        except Unsupported as e:
+            ob.undecide(f"{fname} alone differs from {which}; whether {advisory_unless} makes up for it is not decided ({e})")
+            return
     if not same:
         if only_code is not None:
             w = sl.alpha.word(only_code)
@@ -128,7 +140,7 @@ def d1(cx: Cx, ob: Ob) -> None:
 
 @obligation("C20-D2", "L_true(_is_w3c_luid) = REF = whitespace-free strings not starting with '//' (if the helper exists)", floor=1)
 def d2(cx: Cx, ob: Ob) -> None:
-    compare(cx, ob, "_is_w3c_luid", "REF", required=False)
+    compare(cx, ob, "_is_w3c_luid", "REF", required=False, advisory_unless="is_w3c_curie")
 
 
 @obligation("C20-D3", "L_true(is_w3c_curie) = CURIE: no brackets, not blank, and ([NCName] ':' REF split at the first colon, or a colon-free REF)", floor=1)
